@@ -281,7 +281,7 @@ def find_matches(n, scrut_ty_re=None, into_closures=True):
     rx = re.compile(scrut_ty_re) if scrut_ty_re else None
     for m in exprs(n, "Match", into_closures):
         t = m["scrut"].get("ty", "")
-        if rx is None or rx.search(t):
+        if rx is None or rx.search(t) or rx.search(norm(t)):
             yield m
 
 
@@ -797,3 +797,30 @@ def panic_sites(mir):
                         kind = "unreachable"
             out.append((kind, t.get("sp", ""), c))
     return out
+
+
+def preceding_stmts(body, target):
+    """statements that precede `target` (a node, by identity) in every enclosing block, innermost last;
+    they are executed before it on every path that stays inside those blocks"""
+    res = []
+
+    def go(n, acc):
+        if n is target:
+            res.append(list(acc))
+            return True
+        k = n.get("k")
+        if k == "Block":
+            cur = list(acc)
+            for s in n.get("stmts", []):
+                if go(s, cur):
+                    return True
+                cur = cur + [s]
+            if n.get("expr") is not None and go(n["expr"], cur):
+                return True
+            return False
+        for c in children(n):
+            if go(c, acc):
+                return True
+        return False
+    go(body, [])
+    return res[0] if res else None
